@@ -307,6 +307,7 @@ class Module:
         self.sources = set()
         self.in_progress = []
         self.enums = {}
+        self.extra_tus = sorted({t for e in entries for t in e.get("extra_tus", [])})
         self.tables = {}         # lean name -> text of the table definition
 
     # ---- lookup -------------------------------------------------------------------------------
@@ -346,7 +347,14 @@ class Module:
         if k == "VarDecl":
             d = [o for o in group if "init" in o]
             if not d:
-                raise Fail(f"no initialiser of `{what}` visible in this translation unit")
+                # the definition may live in another translation unit (a static member table defined in a .cpp): the
+                # mangled name is the linker's identity of the object (ODR), so a definition found there is the one used
+                for tu in self.extra_tus:
+                    for o in self.candidates(tu, group[0]["name"]):
+                        if o.get("mangledName") == group[0].get("mangledName") and "init" in o:
+                            return o
+                raise Fail(f"no initialiser of `{what}` visible in this translation unit" +
+                           (f" nor in {self.extra_tus}" if self.extra_tus else " (list the defining .cpp under \"extra_tus\")"))
             return d[0]
         raise Fail(f"`{what}` is a {k}: unsupported")
 
@@ -721,7 +729,7 @@ class FnTr:
         from : {"from_decl": v} the statement declaring v | {"from_call": f [, "call_type": qualType]} the first
                innermost statement calling f (at that instantiation type)
         until: {"until_decl": v} the first later statement of the same list that declares v (at any depth inside it)
-               | {"until_end": true} the end of that list"""
+               | {"until_end": true} the end of that list | {"count": n} exactly n statements"""
         s = self.slice
 
         def declares(st, name, deep):
@@ -762,6 +770,10 @@ class FnTr:
         _, lst, i0 = found[0]
         if s.get("until_end"):
             i1 = len(lst)
+        elif "count" in s:
+            i1 = i0 + int(s["count"])
+            if i1 > len(lst):
+                raise Fail("slice `count` exceeds the block")
         else:
             ends = [i for i in range(i0 + 1, len(lst)) if declares(lst[i], s["until_decl"], True)]
             if not ends:
